@@ -680,6 +680,17 @@ fn star_etc(t: &mut T, a: &Args) {
         }
         let (_, ev) = stepped(|| unsafe { ApicBase::write_raw(fr_of(0x5000), old & !0x000f_ffff_ffff_f000) });
         t.expect("ApicBase", &format!("ApicBase write_raw {:#x}", old), &ev, &[wr(MSR_APIC_BASE, 0x5000 | (old & !0x000f_ffff_ffff_f000))]);
+        // the raw word may carry base-address bits too (read_raw returns the whole register image): whenever those agree with the
+        // frame - in particular in the round trip read_raw -> write_raw - the register receives frame | word
+        cpu().msr_set(MSR_APIC_BASE, old);
+        let (_, ev) = stepped(|| unsafe { let (f, raw) = ApicBase::read_raw(); ApicBase::write_raw(f, raw) });
+        t.expect("ApicBase", &format!("ApicBase read_raw-write_raw-round-trip {:#x}", old), &ev, &[Ev::Rdmsr(MSR_APIC_BASE, old), wr(MSR_APIC_BASE, old)]);
+        for &nf in aframes.iter().chain([fr].iter()) {
+            if old & 0x000f_ffff_ffff_f000 & !nf == 0 {
+                let (_, ev) = stepped(|| unsafe { ApicBase::write_raw(fr_of(nf), old) });
+                t.expect("ApicBase", &format!("ApicBase write_raw frame={:#x} word={:#x}", nf, old), &ev, &[wr(MSR_APIC_BASE, nf | old)]);
+            }
+        }
     }
 }
 
